@@ -28,7 +28,10 @@ import (
 	"github.com/aergoio/aergo/v2/types"
 	raftlib "github.com/aergoio/etcd/raft"
 	"github.com/aergoio/etcd/raft/raftpb"
+	"github.com/rs/zerolog"
 )
+
+var c16PeerID, _ = types.IDB58Decode("16Uiu2HAkvaAMCHkd9hZ6hQkdDLKoXP4eLJSqkMF1YqkSNy5v9SVn")
 
 type c16Case struct {
 	Kind string `json:"kind"`
@@ -78,7 +81,7 @@ func (e *walEnv) block(id int) *types.Block {
 }
 
 func (e *walEnv) ccData(data uint64, ccid uint64) []byte {
-	m := consensus.Member{MemberAttr: types.MemberAttr{ID: data, Name: fmt.Sprintf("n%d", data), Address: "/ip4/127.0.0.1/tcp/10001", PeerID: []byte{byte(data)}}}
+	m := consensus.Member{MemberAttr: types.MemberAttr{ID: data, Name: fmt.Sprintf("n%d", data), Address: "/ip4/127.0.0.1/tcp/10001", PeerID: []byte(c16PeerID)}}
 	ctx, _ := json.Marshal(&m)
 	cc := raftpb.ConfChange{ID: ccid, Type: raftpb.ConfChangeAddNode, NodeID: data, Context: ctx}
 	b, _ := cc.Marshal()
@@ -497,6 +500,7 @@ func TestVerifC16Engine(t *testing.T) {
 	if err != nil {
 		t.Skip("no VERIF_IN")
 	}
+	zerolog.SetGlobalLevel(zerolog.FatalLevel) // the packages log every call
 	defer in.Close()
 	out, _ := os.Create(os.Getenv("VERIF_OUT"))
 	defer out.Close()
